@@ -1470,6 +1470,11 @@ pub struct AggregationState {
     key_strides: Vec<usize>,
     /// Group keys in order of first insertion (for output)
     key_order: Vec<GroupKey>,
+    /// Slot occupancy, parallel to `perfect_accs`/`key_order`: true once a
+    /// group has been assigned to the slot. The key values cannot tell — a
+    /// key that is NULL in every column is a legitimate group and looks
+    /// exactly like a never-assigned slot's placeholder key.
+    perfect_occupied: Vec<bool>,
     /// Total number of slots in perfect_accs
     perfect_capacity: usize,
     /// Whether we overflowed and fell back to HashMap
@@ -1507,6 +1512,7 @@ impl Default for AggregationState {
             key_maps: Vec::new(),
             key_strides: Vec::new(),
             key_order: Vec::new(),
+            perfect_occupied: Vec::new(),
             perfect_capacity: 0,
             overflowed: false,
             groups: HashMap::new(),
@@ -1539,6 +1545,21 @@ impl AggregationState {
         self.key_strides = vec![1; num_group_cols];
     }
 
+    /// Whether perfect-hash slot `idx` has had a group assigned to it.
+    #[inline]
+    fn is_slot_occupied(&self, idx: usize) -> bool {
+        self.perfect_occupied.get(idx).copied().unwrap_or(false)
+    }
+
+    /// Record that perfect-hash slot `idx` now holds a group.
+    #[inline]
+    fn mark_slot_occupied(&mut self, idx: usize) {
+        if self.perfect_occupied.len() <= idx {
+            self.perfect_occupied.resize(idx + 1, false);
+        }
+        self.perfect_occupied[idx] = true;
+    }
+
     /// Try to assign a perfect hash index for a group key.
     /// Returns the index, or None if we exceeded capacity and must fall back.
     ///
@@ -1568,15 +1589,22 @@ impl AggregationState {
             if id == next_id {
                 any_new = true;
                 self.raw_key_values[col].push(accessor.extract_scalar(row));
-            } else if matches!(
-                accessor,
-                TypedArrayAccessor::String(_)
-                    | TypedArrayAccessor::Other(_)
-                    | TypedArrayAccessor::DictString(_)
-            ) {
+            } else if raw_key == u64::MAX
+                || matches!(
+                    accessor,
+                    TypedArrayAccessor::String(_)
+                        | TypedArrayAccessor::Other(_)
+                        | TypedArrayAccessor::DictString(_)
+                )
+            {
                 // Raw keys for strings/other types are lossy encodings — verify
                 // the hit against the registered value; on collision, fall back
                 // to the exact HashMap path for this whole state.
+                //
+                // u64::MAX is the raw key of NULL for EVERY type, and it is also
+                // the bit pattern of the integer/date value -1 (and of one NaN),
+                // so a hit on it must be verified too or the NULL group and the
+                // -1 group share one slot.
                 if !accessor.value_equals_scalar(row, &self.raw_key_values[col][id as usize]) {
                     self.overflowed = true;
                     return None;
@@ -1625,17 +1653,14 @@ impl AggregationState {
                         values: vec![ScalarValue::Null; n],
                     })
                     .collect();
+                let mut new_occupied = vec![false; cap];
 
                 for old_idx in 0..old_capacity.min(self.perfect_accs.len()) {
                     if old_idx >= self.key_order.len() {
                         continue;
                     }
                     // Check if this slot has data
-                    let has_data = !self.key_order[old_idx]
-                        .values
-                        .iter()
-                        .all(|v| matches!(v, ScalarValue::Null));
-                    if !has_data {
+                    if !self.is_slot_occupied(old_idx) {
                         continue;
                     }
 
@@ -1663,10 +1688,12 @@ impl AggregationState {
                             values: vec![ScalarValue::Null; n],
                         },
                     );
+                    new_occupied[new_idx] = true;
                 }
 
                 self.perfect_accs = new_accs;
                 self.key_order = new_key_order;
+                self.perfect_occupied = new_occupied;
             } else {
                 // No rehash needed — just extend arrays
                 while self.perfect_accs.len() < cap {
@@ -1694,18 +1721,14 @@ impl AggregationState {
         }
 
         // Record key values for output (only on first assignment)
-        if flat_idx < self.key_order.len()
-            && self.key_order[flat_idx]
-                .values
-                .iter()
-                .all(|v| matches!(v, ScalarValue::Null))
-        {
+        if flat_idx < self.key_order.len() && !self.is_slot_occupied(flat_idx) {
             for (col, accessor) in group_accessors.iter().enumerate() {
                 let val = accessor.extract_scalar(row);
                 if !matches!(val, ScalarValue::Null) {
                     self.key_order[flat_idx].values[col] = val;
                 }
             }
+            self.mark_slot_occupied(flat_idx);
         }
 
         Some(flat_idx)
@@ -1969,6 +1992,7 @@ impl AggregationState {
                 );
                 self.perfect_capacity = 1;
                 self.key_order.push(GroupKey { values: vec![] });
+                self.mark_slot_occupied(0);
             }
             let accs = &mut self.perfect_accs[0];
             for row in 0..num_rows {
@@ -2201,7 +2225,15 @@ impl AggregationState {
 
     /// Check if a perfect hash slot has data.
     /// For GROUP BY without aggregates (DISTINCT-like), check key_order instead.
-    fn slot_has_data(key: &GroupKey, accs: &[AccumulatorState]) -> bool {
+    fn slot_has_data(occupied: bool, key: &GroupKey, accs: &[AccumulatorState]) -> bool {
+        // A slot a group was assigned to is a real group whatever its key and
+        // accumulators look like: a key that is NULL in every column whose
+        // aggregate inputs were all NULL is indistinguishable from a free slot
+        // by inspection, yet SQL still emits that group (NULL key, COUNT 0,
+        // SUM/AVG/MIN/MAX NULL).
+        if occupied {
+            return true;
+        }
         // A slot whose key was recorded is a real group, even when every
         // accumulator still looks "empty". That happens for legitimate
         // results: COUNT(col) is 0 and MIN/MAX are NULL when the group's
@@ -2243,10 +2275,12 @@ impl AggregationState {
 
     /// Drain perfect hash accumulators into the HashMap fallback
     fn drain_perfect_to_hashmap(&mut self) {
+        let occupied = std::mem::take(&mut self.perfect_occupied);
         for (idx, accs) in self.perfect_accs.drain(..).enumerate() {
             if idx < self.key_order.len() {
                 let key = &self.key_order[idx];
-                if Self::slot_has_data(key, &accs) {
+                let used = occupied.get(idx).copied().unwrap_or(false);
+                if Self::slot_has_data(used, key, &accs) {
                     self.groups.insert(key.clone(), accs);
                 }
             }
@@ -2261,7 +2295,12 @@ impl AggregationState {
                 .iter()
                 .enumerate()
                 .filter(|(idx, accs)| {
-                    *idx < self.key_order.len() && Self::slot_has_data(&self.key_order[*idx], accs)
+                    *idx < self.key_order.len()
+                        && Self::slot_has_data(
+                            self.is_slot_occupied(*idx),
+                            &self.key_order[*idx],
+                            accs,
+                        )
                 })
                 .count()
         } else {
@@ -2470,7 +2509,11 @@ impl AggregationState {
                 if idx >= other.key_order.len() {
                     continue;
                 }
-                if !Self::slot_has_data(&other.key_order[idx], other_accs) {
+                if !Self::slot_has_data(
+                    other.is_slot_occupied(idx),
+                    &other.key_order[idx],
+                    other_accs,
+                ) {
                     continue;
                 }
 
@@ -2497,6 +2540,7 @@ impl AggregationState {
                             });
                         }
                         self.key_order[our_idx] = key.clone();
+                        self.mark_slot_occupied(our_idx);
 
                         for (acc, other_acc) in
                             self.perfect_accs[our_idx].iter_mut().zip(other_accs.iter())
@@ -2559,6 +2603,7 @@ impl AggregationState {
                         });
                     }
                     self.key_order[our_idx] = key.clone();
+                    self.mark_slot_occupied(our_idx);
                     for (acc, other_acc) in
                         self.perfect_accs[our_idx].iter_mut().zip(other_accs.iter())
                     {
@@ -2695,16 +2740,13 @@ impl AggregationState {
                         values: vec![ScalarValue::Null; n],
                     })
                     .collect();
+                let mut new_occupied = vec![false; cap];
 
                 for old_idx in 0..old_capacity.min(self.perfect_accs.len()) {
                     if old_idx >= self.key_order.len() {
                         continue;
                     }
-                    let has_data = !self.key_order[old_idx]
-                        .values
-                        .iter()
-                        .all(|v| matches!(v, ScalarValue::Null));
-                    if !has_data {
+                    if !self.is_slot_occupied(old_idx) {
                         continue;
                     }
 
@@ -2730,10 +2772,12 @@ impl AggregationState {
                             values: vec![ScalarValue::Null; n],
                         },
                     );
+                    new_occupied[new_idx] = true;
                 }
 
                 self.perfect_accs = new_accs;
                 self.key_order = new_key_order;
+                self.perfect_occupied = new_occupied;
             } else {
                 while self.perfect_accs.len() < cap {
                     self.perfect_accs.push(
@@ -2797,7 +2841,7 @@ impl AggregationState {
                 if idx >= self.key_order.len() {
                     continue;
                 }
-                if Self::slot_has_data(&self.key_order[idx], accs) {
+                if Self::slot_has_data(self.is_slot_occupied(idx), &self.key_order[idx], accs) {
                     all_groups.push((&self.key_order[idx], accs));
                 }
             }
